@@ -362,6 +362,8 @@ def srun(cmd, exec_path):
             p.extra['distribution'] = val
         elif name == '--ntasks-per-node':
             p.extra['ntasks_per_node'] = to_int(p, val, name)
+        elif name == '--gpus-per-task':
+            p.extra['gpus_per_task'] = to_int(p, val, name)
         elif name in with_arg or name in ('-K', '-K0', '-K1', '--quit-on-interrupt',
                                           '--exact', '--exclusive', '--overlap'):
             pass
